@@ -13,6 +13,8 @@ def run(F, G, tier, seed):
     effects.run_c13_instance(chk, F, rid)
     effects.run_argsibling(chk, F)
     effects.run_summaryorder(chk, F)
+    effects.run_binderrange(chk, F)
+    effects.run_earlydepends(chk, F)
     rid2 = "R-SEEDS"
     chk.rule(rid2, "the computable set is seeded only from is_constant() variables, constant non-reference template "
                    "parameters and binders")
